@@ -17,7 +17,7 @@ from common import *
 import runner
 
 ID = "C12"
-LEAN_MODULES = ["Properties.C12"]
+LEAN_MODULES = ["Properties.C12", "Properties.C13"]
 THEOREMS = ["EngineModel.Properties.C12." + t for t in [
     # canon: lossless lexing, bijection onto well-formed lexeme lists, invariances, injective otherwise
     "lex_lossless", "lex_wellformed", "lex_bijective", "canon_of_lexemes", "canon_def",
@@ -26,7 +26,10 @@ THEOREMS = ["EngineModel.Properties.C12." + t for t in [
     # schemaEq: equivalence, characterisation, projections
     "sameSet_iff", "schemaEq_iff", "schemaEq_refl", "schemaEq_symm", "schemaEq_trans", "schemaEq_equivalence",
     "schemaEq_master", "schemaEq_sql", "schemaEq_columns", "schemaEq_indexes", "schemaEq_sizes",
-    "schemaEq_of_canon_eq", "schemaEq_detects"]]
+    "schemaEq_of_canon_eq", "schemaEq_detects"]] + [
+    # "carries the matching version numbers ... recognised on load as the version requested" (Properties/C13.lean, over the
+    # decision tree and the stamped constants regenerated from schema.cpp / schema_*.hpp on every run)
+    "EngineModel.Properties.C13.C13_stamp", "EngineModel.Properties.C13.C13_reload"]
 ASSUMPTIONS = [
     "SQLite's own storage of DDL text in sqlite_master and its PRAGMA table_info / index_list / index_info are "
     "trusted (the catalogs are read through the SQLite C API on the library's own connection / on a plain "
@@ -41,26 +44,41 @@ ASSUMPTIONS = [
     "of Properties/C12.lean)",
 ]
 MANIFEST = dict(
-    text="Finite decision: on every run every (created schema x {temporary, on-disk} x reference dump) pair is decided by the "
-         "compiled Lean comparison schemaEq on catalogs read back through the SQLite C API from the library the real code created "
-         "and from the hydrated reference scripts (pairing by the Lean version table; stamped version numbers, verify(), "
-         "reload-as-requested and temporary == on-disk == reloaded checked by direct oracles). Theorems (Properties/C12.lean) "
-         "characterise the comparison: the SQL lexer is lossless and a bijection onto well-formed lexeme lists (lex_lossless, "
-         "lex_wellformed, lex_bijective), canon = filterMap strip over it (canon_of_lexemes), invariant under whitespace / comment "
-         "insertion and the three identifier-quoting styles (canon_ws_insert, canon_requote, canon_quote_bare), injective "
-         "otherwise (canon_eq_iff), with canonical representatives (canon_render_canon); schemaEq is an equivalence "
-         "(schemaEq_equivalence) holding exactly when the (db, type, name, tbl_name, canon sql) sets, the ordered table_info "
-         "column lists and the index descriptions agree (schemaEq_iff and projections). Thorough tier additionally re-decides "
-         "the paired table inside the kernel (C12_table over Gen/SchemaFacts.lean) or reports it as skipped.",
-    note="Trusted: Lean kernel; SQLite's storage of DDL text and its PRAGMAs; harness/djv_schema.cpp (catalog reader) and the dump "
-         "text form. Exhaustive evaluation of a lemma-characterised comparison (what the finite quantifier calls for), not an "
-         "inductive proof about the creators. Schema 1.6.0 has no reference dump; schema 3.0.0 is compared but not claimed. One "
-         "known finding: the three reference dumps of 1.18.0-desktop disagree in one trigger name (ep-1.5.1).",
-    technique="Lean 4 executable Spec (lossless lexer + canon + schemaEq) with characterisation theorems; exhaustive finite "
-              "decision over catalogs of really created / hydrated libraries",
+    text="Finite decision, in the kernel and on the real code: every run the catalogs (sqlite_master, table_info, index_list/index_info) "
+         "of all 19 schemas created by the real code (temporary, on-disk, reloaded) and of the 57 hydrated reference dumps are read "
+         "through the SQLite C API and (1) emitted as Lean data (Gen/SchemaFacts.lean: 450 distinct DDL texts as explicit literals, "
+         "39 distinct catalogs, the (created, reference) pairs of equal version) over which Properties/C12Table.lean closes "
+         "C12_table : forall p in pairs, schemaEq created reference = true by decide +kernel (classes_checked lexes every text in the "
+         "kernel; table_checked compares on class indices; tableOk_sound lifts to schemaEq), with C12_table_counterexample for the one "
+         "recorded pair and texts_comment_free; lake rebuilds it only when the facts changed (seconds on an unchanged tree, minutes "
+         "after a change; beyond the tier's budget the evidence says kernel_table.status = skipped); (2) EVERY (created x form x "
+         "reference) pair is decided by the compiled schemaEq, with direct oracles for stamped version numbers, verify(), "
+         "reload-as-requested and temporary == on-disk == reloaded. Theorems of Properties/C12.lean say what the comparison means: "
+         "lossless lexer, bijection onto well-formed lexeme lists, canon invariant under whitespace/comment insertion and the three "
+         "quoting styles, injective otherwise (canon_eq_iff), schemaEq an equivalence holding exactly when the (db, type, name, "
+         "tbl_name, canon sql) sets, ordered table_info column lists and index descriptions agree. Version clause: C13_stamp, "
+         "C13_reload (over the decision tree and constants regenerated from schema.cpp each run).",
+    note="Trusted: Lean kernel; SQLite's storage of DDL text and its PRAGMAs; harness/djv_schema.cpp (catalog reader), the dump text form "
+         "and the fact emitter. canon identifies exactly: texts that differ in whitespace runs / comments between tokens (comments do "
+         "not occur in any compared text: texts_comment_free) and in the spelling - bare or quoted in any of the three styles - of a "
+         "word, wherever it occurs (so `DEFAULT [0]` and `DEFAULT 0` have equal canon; the table_info default texts, compared "
+         "literally, tell them apart); sameSet is mutual inclusion plus equal length. Schema 1.6.0 has no reference dump; schema "
+         "3.0.0 is compared but not claimed. One known finding: the three reference dumps of 1.18.0-desktop disagree in one trigger "
+         "name (ep-1.5.1).",
+    technique="Lean 4 executable Spec (lossless lexer + canon + schemaEq) with characterisation theorems; the finite table decided "
+              "by decide +kernel over facts regenerated from really created / hydrated libraries, and by the compiled Spec on every pair",
     ref="6/C12")
 TRUSTED_EXTRA = ["harness/djv_schema.cpp (catalog reader over the SQLite C API) and the text form of a dump"]
 STATELESS = False
+
+
+def _translate_detect():
+    r = subprocess.run([sys.executable, os.path.join(VERIF, "tools", "tr_detect.py")],
+                       stdout=subprocess.PIPE, stderr=subprocess.PIPE, text=True)
+    return (r.stdout.strip() or r.stderr.strip()[-200:])
+
+
+TRANSLATORS = {"schema.cpp (detect_schema, schema_version constants)": _translate_detect}
 
 SCHEMAS = ["schema_1_6_0", "schema_1_7_1", "schema_1_9_1", "schema_1_11_1", "schema_1_13_0", "schema_1_13_1",
            "schema_1_13_2", "schema_1_15_0", "schema_1_17_0", "schema_1_18_0_desktop", "schema_1_18_0_os",
@@ -301,7 +319,12 @@ def decide(schemas, refs, outs, all_pairs=True):
 
 # ------------------------------------------------------------------ thorough tier: the table inside the kernel
 FACTS = os.path.join(LEAN, "EngineModel", "Gen", "SchemaFacts.lean")
-KERNEL_BUDGET_S = int(os.environ.get("VERIF_C12_KERNEL_BUDGET", "720"))
+# the kernel table is rebuilt only when the emitted facts changed (lake caches by content): on an unchanged tree it
+# costs seconds in either tier; after a change of a creator / reference dump it needs minutes of kernel time
+KERNEL_BUDGET_S = {"quick": int(os.environ.get("VERIF_C12_KERNEL_BUDGET_QUICK", "60")),
+                   "thorough": int(os.environ.get("VERIF_C12_KERNEL_BUDGET", "900"))}
+TABLE_THEOREMS = ["EngineModel.Properties.C12Table." + t for t in
+                  ("classes_checked", "table_checked", "C12_table", "C12_table_counterexample", "texts_comment_free")]
 
 
 def _unhex(t):
@@ -345,15 +368,15 @@ def _int(n):
 
 
 class _Strs:
-    """every distinct byte string becomes one constant `s<k> : NStr := dec <len> 0x<little-endian number>`"""
+    """every distinct byte string gets an index into the generated table `strs`"""
     def __init__(self):
-        self.ix, self.defs = {}, []
+        self.ix, self.tab = {}, []
 
     def ns(self, b):
         if b not in self.ix:
-            self.ix[b] = len(self.defs)
-            self.defs.append("def s%d : NStr := dec %d 0x%s" % (len(self.defs), len(b), (b[::-1].hex() or "0")))
-        return "s%d" % self.ix[b]
+            self.ix[b] = len(self.tab)
+            self.tab.append(b)
+        return str(self.ix[b])
 
     def ons(self, b):
         return "none" if b is None else "(some %s)" % self.ns(b)
@@ -400,7 +423,10 @@ def emit_facts(dumps, pairs_named, excluded):
          "noncomputable def texts : List Str := ["]
     L.append(",\n".join('  bytes% "' + t.hex() + '"' for t in texts) + "]")
     L.append("def cls : List Nat := [%s]" % ",".join(str(c) for c in cls))
-    L += S.defs + body
+    L.append("/-- the %d distinct names / declared types / defaults / labels; catalogs refer to them by index -/" % len(S.tab))
+    L.append("noncomputable def strs : List Str := [")
+    L.append(",\n".join('  bytes% "' + t.hex() + '"' for t in S.tab) + "]")
+    L += body
     L.append("def dumps : List IDump := [%s]" % ", ".join("d%d" % k for k in range(len(order))))
     prs = sorted({(did[a], did[b]) for a, b in pairs_named})
     L.append("/-- (created catalog, reference catalog of the same schema version) -/")
@@ -410,16 +436,27 @@ def emit_facts(dumps, pairs_named, excluded):
     for i in dumps:
         names.setdefault(did[i], []).append(i)
     L.append("def names : List String := [%s]" % ", ".join('"%s"' % " = ".join(names[k]) for k in range(len(order))))
-    L.append("/-- pairs left out because they are recorded findings (they do differ) -/")
+    L.append("/-- pairs left out because they are recorded findings (they do differ: C12_table_counterexample) -/")
     L.append("def excluded : List String := [%s]" % ", ".join('"%s ~ %s"' % e for e in excluded))
+    # for each excluded pair a witness: a sqlite_master row of the created catalog without counterpart in the reference
+    wit = set()
+    for a, b in excluded:
+        ma, mb = parsed[order[did[a]]][0], parsed[order[did[b]]][0]
+        keyb = {(r[0], r[1], r[2], r[3], None if r[4] is None else cls[tindex[r[4]]]) for r in mb}
+        for k, r in enumerate(ma):
+            if (r[0], r[1], r[2], r[3], None if r[4] is None else cls[tindex[r[4]]]) not in keyb:
+                wit.add((did[a], did[b], k))
+                break
+    L.append("/-- (created catalog, reference catalog, index of a sqlite_master row of the first without counterpart in the second) -/")
+    L.append("def excludedWitness : List (Nat × Nat × Nat) := [%s]" % ", ".join("(%d, %d, %d)" % w for w in sorted(wit)))
     L.append("end EngineModel.Gen.SchemaFacts")
     with open(FACTS, "w") as f:
         f.write("\n".join(L) + "\n")
     return {"texts": len(texts), "text_bytes": sum(len(t) for t in texts), "classes": len(set(cls)),
-            "catalogs": len(order), "pairs": len(prs), "excluded": len(excluded), "strings": len(S.defs)}
+            "catalogs": len(order), "pairs": len(prs), "excluded": len(excluded), "strings": len(S.tab)}
 
 
-def kernel_table(r, known):
+def kernel_table(r, known, tier="thorough"):
     """Emit Gen/SchemaFacts.lean and let the kernel close Properties/C12Table.lean within the budget."""
     t0 = time.time()
     dumps = {i: d for i, (info, d) in r["dumps"].items() if not i.endswith(".reloaded")}
@@ -441,15 +478,18 @@ def kernel_table(r, known):
         return {"status": "failed", "why": "emitting the facts: %r" % (e,)}
     try:
         p = subprocess.run(["lake", "build", "Properties.C12Table"], cwd=LEAN, stdout=subprocess.PIPE, stderr=subprocess.STDOUT,
-                           text=True, timeout=KERNEL_BUDGET_S)
+                           text=True, timeout=KERNEL_BUDGET_S[tier])
     except subprocess.TimeoutExpired:
         subprocess.run(["pkill", "-f", "Properties/C12Table.lean"])
-        return dict(stats, status="skipped", why="kernel evaluation exceeded the budget of %d s (reported, not silent)" % KERNEL_BUDGET_S,
+        subprocess.run(["pkill", "-f", "Gen/SchemaFacts.lean"])
+        return dict(stats, status="skipped",
+                    why="the emitted facts differ from the last ones the kernel closed, and re-closing C12_table exceeded the %s-tier "
+                        "budget of %d s (reported, not silent; the compiled schemaEq decided every pair this run)" % (tier, KERNEL_BUDGET_S[tier]),
                     wall_s=round(time.time() - t0, 1))
     if p.returncode != 0:
         return dict(stats, status="failed", why=p.stdout[-1500:], wall_s=round(time.time() - t0, 1))
     import audit as auditmod
-    names = ["EngineModel.Properties.C12Table." + t for t in ("classes_checked", "table_checked", "C12_table")]
+    names = TABLE_THEOREMS
     ax = auditmod.axioms_and_statements(names, imports=("Properties.C12Table",))
     allowed = {"propext", "Classical.choice", "Quot.sound"}
     bad = [n for n in names if ax[n].get("axioms") is None or not set(ax[n]["axioms"]) <= allowed]
@@ -475,15 +515,13 @@ def tie(ctx):
     except (OSError, ValueError, KeyError):
         known = []
     ok = not [v for v in r["violations"] if v["signature"] not in known] and not r["divergences"]
-    if ctx.tier == "thorough":
-        kt = kernel_table(r, known)
+    if True:
+        kt = kernel_table(r, known, ctx.tier)
         r["extra"]["kernel_table"] = kt
         if kt["status"] == "failed":
             ok = False
             r["divergences"].append({"input": "Properties/C12Table.lean over Gen/SchemaFacts.lean", "impl": "(n/a)",
                                      "model": "the kernel does not close C12_table: " + str(kt.get("why"))[-600:]})
-    else:
-        r["extra"]["kernel_table"] = {"status": "not-run", "why": "thorough tier only"}
     return {
         "ok": ok,
         "evaluations": r["evaluations"],
@@ -526,5 +564,4 @@ def replay(ctx, hdr, body):
 
 if __name__ == "__main__" and sys.argv[1:] == ["lock-table"]:
     import audit as auditmod
-    print(auditmod.write_lock("C12Table", ["EngineModel.Properties.C12Table." + t for t in ("classes_checked", "table_checked", "C12_table")],
-                              imports=("Properties.C12Table",)))
+    print(auditmod.write_lock("C12Table", TABLE_THEOREMS, imports=("Properties.C12Table",)))
